@@ -12,11 +12,12 @@ TOP = None  # represented explicitly as the full variant set
 
 
 class Event:
-    __slots__ = ("body", "bb", "idx", "cell", "prior", "new", "identity", "site", "ctx")
+    __slots__ = ("body", "bb", "idx", "cell", "prior", "new", "identity", "site", "ctx", "pairs")
 
     def __init__(self, body, bb, idx, cell, prior, new, identity, site, ctx=None):
         self.body, self.bb, self.idx, self.cell, self.prior, self.new, self.identity, self.site, self.ctx = \
             body, bb, idx, cell, prior, new, identity, site, ctx
+        self.pairs = {(prior, new, identity)}   # per-path transition pairs (trace partitioned)
 
     def __repr__(self):
         return f"<write {self.cell} in {self.body.id} bb{self.bb}: {sorted(self.prior)} -> {'=' if self.identity else sorted(self.new)}>"
@@ -222,6 +223,7 @@ class Typestate:
             key = (bb, i)
             if key in events:
                 e = events[key]
+                e.pairs.add((prior, new, identity))
                 e.prior = e.prior | prior
                 e.new = e.new | new
                 e.identity = e.identity and identity
